@@ -191,7 +191,8 @@ def execute(plan):
         "sig": R.digest([[c02.sig_of(s.journal, r.lp), s.k] for s in r.sessions] + [plan["k_stub"]]),
         "nontrivial": dict_values > 0,
         "evaluated": evaluated + (1 if dict_values else 0),
-        "faults": c01.fired(r),
+        "faults": dict(c01.fired(r), **({"config_hook_raises_at_session_start": sum(1 for x in plan["sessions"] if (x.get("faults") or {}).get("cfg_raises"))}
+                                        if any((x.get("faults") or {}).get("cfg_raises") for x in plan["sessions"]) else {})),
         "probes": dict(probes),
         "sim_days": (max(days) - min(days)) if days else 0,
         "stats": {"rows": len(r.rows), "dict_values_scanned": dict_values},
